@@ -59,6 +59,12 @@ def OKPCurve.toNat : OKPCurve → Nat | .X25519 => 4 | .X448 => 5 | .Ed25519 => 
 def OKPCurve.ofNat? (n : Nat) : Option OKPCurve :=
   if n = 4 then some .X25519 else if n = 5 then some .X448 else if n = 6 then some .Ed25519 else if n = 7 then some .Ed448 else none
 
+def EC2Curve.all : List EC2Curve := [.P256, .P384, .P521, .P256K]
+def OKPCurve.all : List OKPCurve := [.X25519, .X448, .Ed25519, .Ed448]
+/-- the variant's name in the source -/
+def EC2Curve.name : EC2Curve → String | .P256 => "P256" | .P384 => "P384" | .P521 => "P521" | .P256K => "P256K"
+def OKPCurve.name : OKPCurve → String | .X25519 => "X25519" | .X448 => "X448" | .Ed25519 => "Ed25519" | .Ed448 => "Ed448"
+
 inductive EC2Y where
   | value (b : Bytes)
   | signBit (b : Bool)
